@@ -24,6 +24,12 @@ def run_line(line: str) -> str:
         return IMPL[name](t)
     except Exception as e:  # the real code raised: canonical error kind
         return err_of(e)
+    except BaseException as e:  # noqa: BLE001
+        if isinstance(e, (KeyboardInterrupt, SystemExit, GeneratorExit)) or type(e).__name__ in ("_TO", "_Timeout"):
+            raise
+        # a harness self-check failed (e.g. the object built from a term no longer reads back as that term): on an
+        # unchanged library that cannot happen, so it is the implementation's doing — an answer no model answer equals
+        return "err harness-selfcheck-" + type(e).__name__
 
 
 @op("escape")
